@@ -1,10 +1,311 @@
-import GqlgenVerif.Model.Pipeline
-import GqlgenVerif.Model.PipelineSpec
-import GqlgenVerif.Model.SuggRace
+import GqlgenVerif.Lemmas.Pipeline
+import GqlgenVerif.Lemmas.PipelineCount
+import GqlgenVerif.Lemmas.PipelineRace
+import GqlgenVerif.Lemmas.PipelineCache
 import GqlgenVerif.Gen.PipelineSteps
-namespace GqlgenVerif.Props.C03
-open GqlgenVerif.Pipeline
+/-!
+# C03 — nothing executes unless the operation passed parsing, validation and every gate; hook order
 
-theorem gen_create_steps_are_modelled : Gen.PipelineSteps.createSteps = Steps.modelCreate := by decide
+Theorems over `Model/Pipeline.lean` (the request pipeline of `graphql/executor`), for **all** extension
+lists, requests, query texts, cache implementations satisfying `Apq.Lawful` (eviction included), rule
+lists and histories; over `Model/SuggRace.lean` for all thread counts and all schedules; and over the
+skeleton of `executor.go` / `extensions.go` regenerated into `Gen/PipelineSteps.lean` on every run.
+
+The state hypotheses `Inv` (the cache holds only validated documents) and `Complete` (the global rule
+list contains a field-existence rule and the other rules) are not assumptions about the code: they hold
+initially (`inv_empty`, `Complete.init`) and `run` re-establishes them (`run_satisfies_spec`), so they
+hold after every history (`cache_holds_only_validated`).
+-/
+namespace GqlgenVerif.Props.C03
+open GqlgenVerif GqlgenVerif.Pipeline GqlgenVerif.Apq
+
+/-! ## 1. The regenerated skeleton is the modelled one -/
+
+/-- `CreateOperationContext` tests the gates in the order the model does, and contains no other
+statement that could return or touch the document. -/
+theorem gen_create_steps_are_modelled :
+    Gen.PipelineSteps.createSteps = Steps.modelCreate := by decide
+
+/-- `parseQuery`: cache lookup → parse → "no operation" → (locked) rule swap → (read-locked) Validate →
+error return → `Add`. -/
+theorem gen_parseQuery_steps_are_modelled :
+    Gen.PipelineSteps.parseQuerySteps = Steps.modelParseQuery := by decide
+
+/-- the document is stored only behind the error return that follows `Validate` -/
+theorem gen_add_only_after_validation :
+    Steps.addAfterValidation Gen.PipelineSteps.parseQuerySteps = true := by decide
+
+/-- `processExtensions` wraps exactly the four interceptor kinds, each as
+`p.InterceptX(ctx, func(ctx) { return previous(ctx, next) })`, and collects the mutators front to back -/
+theorem gen_interceptor_table_is_modelled :
+    Gen.PipelineSteps.interceptorTable = Steps.modelInterceptorTable ∧
+    Gen.PipelineSteps.mutatorsForward = true := by decide
+
+/-! ## 2. `processExtensions` is nesting, first-registered outermost -/
+
+/-- the back-to-front accumulator loop builds exactly the nested chain, for every handler type, every
+interceptor behaviour and every extension list -/
+theorem fold_is_nesting {H : Type} (sel : Ext → Option (H → H)) (exts : List Ext) :
+    chain sel exts = nest sel exts :=
+  chain_eq_nest sel exts
+
+/-- the same, for the loop direction the source has today (regenerated) -/
+theorem fold_is_nesting_gen {H : Type} (sel : Ext → Option (H → H)) (exts : List Ext) :
+    chainDir Gen.PipelineSteps.foldBackwards sel exts = nest sel exts := by
+  have : Gen.PipelineSteps.foldBackwards = true := by decide
+  rw [this]
+  simp only [chainDir, if_true]
+  exact chain_eq_nest sel exts
+
+/-- the direction matters: a front-to-back loop puts the first extension innermost -/
+theorem forward_fold_is_not_nesting_witness :
+    chainDir false (logSel .op []) [{ id := 0, op := true }, { id := 1, op := true }] [.exec] ≠
+      nest (logSel .op []) [{ id := 0, op := true }, { id := 1, op := true }] [.exec] := by decide
+
+example : nest (logSel .op []) [{ id := 0, op := true }, { id := 1, op := true }] [.exec] =
+    [.enter .op 0 [], .enter .op 1 [], .exec, .exit .op 1 [], .exit .op 0 []] := by decide
+
+/-! ## 3. A rejected request runs nothing -/
+
+variable {σ : Type}
+
+/-- **rejected_runs_nothing.** Whatever gate fails — a parameter mutator, parsing, "no operation",
+validation, operation selection, variable coercion, a context mutator — in whatever state (any cache
+content, any rule list): no operation / root-field / field interceptor, no `Exec`, no directive and no
+resolver event is logged, and the request is answered with errors and no data. -/
+theorem rejected_runs_nothing (W : World) (C : CacheImpl σ Doc Nat) (cfg : Cfg) (s : St σ) (r : Req)
+    (h : (run W C cfg s r).1.gate ≠ none) :
+    (∀ e ∈ (run W C cfg s r).1.log, e.isExecution = false) ∧
+    (∀ x ∈ (run W C cfg s r).1.resps, Spec.errorsOnly x = true) ∧
+    (run W C cfg s r).1.resps ≠ [] :=
+  run_rejected W C cfg s r h
+
+/-- non-vacuity: a syntax error is rejected (and `{ nope }`-like documents, mutator rejections … are
+exercised by `Driver/C03.lean` on every run) -/
+example : (run { parse := fun _ => none } noCache { exts := [{ id := 0, op := true, field := true }] }
+    ⟨(), initRules⟩ { q := 0 }).1.gate = some .parse := by decide
+
+/-! ## 4. The gates are exactly the property's gates; accepted requests follow the lifecycle -/
+
+theorem inv_empty (W : World) (view : σ → Nat → Option Doc) (c : σ) (h : ∀ k, view c k = none) :
+    Inv W view c := by
+  intro k d hk; rw [h k] at hk; cases hk
+
+theorem complete_init : Complete initRules := Complete.init
+
+/-- the rule swap of `disableSuggestion` keeps a field-existence rule in the list (sequentially) -/
+theorem swap_keeps_complete {l : Rules} (h : Complete l) : Complete (swapRules l) := h.swap
+
+/-- **Impl ⊨ Spec.** From a state with `Inv` and `Complete`, for every lawful cache:
+* the observation satisfies `Spec.ok` — a request failing *any* gate executes nothing and gets errors
+  only; an accepted one logs every parameter mutator in registration order, every context mutator in
+  registration order, the operation interceptors nested first-registered-outermost around `Exec`, then
+  per call of the handler the response interceptors nested around the root fields in document order,
+  each inside the nested root-field interceptors, each field inside the nested field interceptors
+  around (directive, resolver);
+* `CreateOperationContext` accepts **iff** every gate of the property passes (`Spec.accepts`), whether
+  the document came from the cache or not;
+* the state after the request again satisfies `Inv` and `Complete`. -/
+theorem run_satisfies_spec (W : World) {C : CacheImpl σ Doc Nat} {view : σ → Nat → Option Doc}
+    (law : Lawful C view) (cfg : Cfg) (s : St σ) (r : Req)
+    (hinv : Inv W view s.cache) (hc : Complete s.rules) :
+    Spec.ok W cfg.exts r (run W C cfg s r).1.log (run W C cfg s r).1.resps = true ∧
+    ((run W C cfg s r).1.gate = none ↔ (Spec.accepts W cfg.exts r).isSome = true) ∧
+    Inv W view (run W C cfg s r).2.cache ∧ Complete (run W C cfg s r).2.rules :=
+  run_spec W law cfg s r hinv hc
+
+/-- non-vacuity of the hypotheses: the state every executor starts in -/
+example (W : World) : Inv W (mapView : MapState Doc Nat → Nat → Option Doc) mapEmpty ∧ Complete initRules :=
+  ⟨inv_empty W _ _ (fun _ => rfl), Complete.init⟩
+
+/-- **cache_holds_only_validated.** After every history of requests on an executor that started with
+an empty lawful cache (suggestions on or off): every document the cache can return is the parse of its
+key, has an operation and is valid under the complete rule set. -/
+theorem cache_holds_only_validated (W : World) {C : CacheImpl σ Doc Nat} {view : σ → Nat → Option Doc}
+    (law : Lawful C view) (cfg : Cfg) (c0 : σ) (hempty : ∀ k, view c0 k = none) (hist : List Req) :
+    ∀ k d, view (runAll W C cfg ⟨c0, initRules⟩ hist).2.cache k = some d →
+      W.parse k = some d ∧ d.valid = true ∧ d.ops.isEmpty = false :=
+  (runAll_spec W law cfg hist ⟨c0, initRules⟩ (inv_empty W view c0 hempty) Complete.init).1
+
+/-- the three caches of the code base are lawful (any LRU capacity, eviction included) -/
+theorem query_caches_lawful :
+    Lawful (noCache : CacheImpl Unit Doc Nat) noView ∧
+    Lawful (mapCache : CacheImpl (MapState Doc Nat) Doc Nat) mapView ∧
+    Lawful (lruCache : CacheImpl (Lru Doc Nat) Doc Nat) lruView :=
+  ⟨CacheLaws.no_lawful, CacheLaws.map_lawful, CacheLaws.lru_lawful⟩
+
+/-- **cached_eq_uncached.** After any history, the next request gets the same verdict, the same
+answers and the same events (cache bookkeeping aside) as it would from an executor without a cache. -/
+theorem cached_eq_uncached (W : World) {C : CacheImpl σ Doc Nat} {view : σ → Nat → Option Doc}
+    (law : Lawful C view) (cfg : Cfg) (c0 : σ) (hempty : ∀ k, view c0 k = none) (hist : List Req) (r : Req) :
+    let s := (runAll W C cfg ⟨c0, initRules⟩ hist).2
+    (run W C cfg s r).1.gate = (run W noCache cfg ⟨(), s.rules⟩ r).1.gate ∧
+    (run W C cfg s r).1.resps = (run W noCache cfg ⟨(), s.rules⟩ r).1.resps ∧
+    (run W C cfg s r).1.log.filter (fun e => !e.isCache) =
+      (run W noCache cfg ⟨(), s.rules⟩ r).1.log.filter (fun e => !e.isCache) := by
+  intro s
+  obtain ⟨hi, hc⟩ := runAll_spec W law cfg hist ⟨c0, initRules⟩ (inv_empty W view c0 hempty) Complete.init
+  exact run_eq_uncached W law cfg s r hi hc
+
+/-! ## 5. Each hook exactly once -/
+
+/-- **each_hook_once (operation).** An accepted request whose operation interceptors all call `next`:
+every registered operation interceptor is entered once and left once, and `Exec` is called once.
+(Extension ids are the harness's names for the registered extensions, hence distinct.) -/
+theorem each_operation_hook_once (W : World) {C : CacheImpl σ Doc Nat} {view : σ → Nat → Option Doc}
+    (law : Lawful C view) (cfg : Cfg) (s : St σ) (r : Req)
+    (hinv : Inv W view s.cache) (hc : Complete s.rules)
+    (hacc : (run W C cfg s r).1.gate = none) (hblk : r.opBlock = [])
+    (hnd : (cfg.exts.map (·.id)).Nodup) (x : Ext) (hx : x ∈ cfg.exts) (hop : x.op = true) :
+    (run W C cfg s r).1.log.count (.enter .op x.id []) = 1 ∧
+    (run W C cfg s r).1.log.count (.exit .op x.id []) = 1 ∧
+    (run W C cfg s r).1.log.count .exec = 1 := by
+  obtain ⟨hok, hiff, _, _⟩ := run_spec W law cfg s r hinv hc
+  have hsome := hiff.1 hacc
+  cases ha : Spec.accepts W cfg.exts r with
+  | none => rw [ha] at hsome; cases hsome
+  | some op =>
+    simp only [Spec.ok, ha, Bool.and_eq_true, decide_eq_true_eq] at hok
+    obtain ⟨hlog, _⟩ := hok
+    have hcount : ∀ a : Ev, a.isCache = false →
+        (run W C cfg s r).1.log.count a = (Spec.expected cfg.exts op r).1.count a := by
+      intro a hnc
+      rw [← hlog, List.count_filter (by simp [hnc])]
+    have hpre : ∀ a : Ev, a.isOpLevel = true →
+        ((pmList cfg.exts).map (fun x => Ev.pm x.id) ++ (cmList cfg.exts).map (fun x => Ev.cm x.id)).count a = 0 := by
+      intro a ha
+      rw [List.count_eq_zero]
+      intro hm
+      simp only [List.mem_append, List.mem_map] at hm
+      rcases hm with ⟨y, _, rfl⟩ | ⟨y, _, rfl⟩ <;> simp [Ev.isOpLevel] at ha
+    have hexp : ∀ a : Ev, a.isOpLevel = true →
+        (Spec.expected cfg.exts op r).1.count a =
+          (nest (logSel .op []) cfg.exts [.exec]).count a := by
+      intro a ha
+      unfold Spec.expected
+      rw [hblk, nest_op_noblock]
+      simp only
+      cases r.execErr
+      · simp only [Bool.false_eq_true, if_false, List.count_append, hpre a ha,
+          count_zero_of_noOp (Spec.pollLoop_noOp cfg.exts op r r.polls 0) ha]
+        simp
+      · simp only [if_true, List.count_append, hpre a ha]
+        simp
+    have hk : x.has .op = true := hop
+    refine ⟨?_, ?_, ?_⟩
+    · rw [hcount _ rfl, hexp _ rfl, count_nest_log, count_enters, count_exits_other _ _ _ _ (by intro j; simp)]
+      simp [hooks_eq_one hnd hx hk]
+    · rw [hcount _ rfl, hexp _ rfl, count_nest_log, count_exits, count_enters_other _ _ _ _ (by intro j; simp)]
+      simp [hooks_eq_one hnd hx hk]
+    · rw [hcount _ rfl, hexp _ rfl, count_nest_log, count_enters_other _ _ _ _ (by intro j; simp),
+        count_exits_other _ _ _ _ (by intro j; simp)]
+      simp
+
+/-- non-vacuity: an accepted request on two operation interceptors -/
+example :
+    let W : World := { parse := fun _ => some { id := 0, ops := [⟨"", false, [1]⟩], nField := 0, nOther := 0, sugg := false } }
+    let cfg : Cfg := { exts := [{ id := 4, op := true }, { id := 2, op := true, field := true }] }
+    (run W noCache cfg ⟨(), initRules⟩ { q := 0 }).1.gate = none ∧
+    (run W noCache cfg ⟨(), initRules⟩ { q := 0 }).1.log.count (.enter .op 4 []) = 1 := by decide
+
+/-- **lifecycle of the answers.** What an accepted request logs after `DispatchOperation` returned is
+one segment per call of the response handler (`Spec.pollSegments`), each segment being the response
+chain around the root fields (or around nothing, for the call that answers nil). -/
+theorem answers_are_segments (exts : List Ext) (op : OpDef) (r : Req) :
+    (Spec.pollLoop exts op r r.polls 0).1 = (Spec.pollSegments exts op r r.polls 0).flatten ∧
+    (Spec.pollLoop exts op r r.polls 0).2.length = (Spec.pollSegments exts op r r.polls 0).length :=
+  Spec.pollLoop_flatten exts op r r.polls 0
+
+/-- **each_hook_once (response).** In every call of the response handler, every registered response
+interceptor is entered once and left once. -/
+theorem each_response_hook_once (exts : List Ext) (op : OpDef) (r : Req)
+    (hnd : (exts.map (·.id)).Nodup) (x : Ext) (hx : x ∈ exts) (hr : x.resp = true)
+    (seg : List Ev) (hseg : seg ∈ Spec.pollSegments exts op r r.polls 0) :
+    seg.count (.enter .resp x.id []) = 1 ∧ seg.count (.exit .resp x.id []) = 1 := by
+  have hk : x.has .resp = true := hr
+  obtain ⟨h1, h2, h3, h4⟩ := count_respLog_enter exts op.roots x.id
+  rcases Spec.mem_pollSegments hseg with rfl | rfl
+  · exact ⟨by rw [h1, hooks_eq_one hnd hx hk], by rw [h3, hooks_eq_one hnd hx hk]⟩
+  · exact ⟨by rw [h2, hooks_eq_one hnd hx hk], by rw [h4, hooks_eq_one hnd hx hk]⟩
+
+/-- **each_hook_once (field).** In a response, for every resolved field (root fields `[a]`, their
+children `[a, b]`): every registered field interceptor is entered exactly once, the directive chain and
+the resolver run exactly once; for every root field every registered root-field interceptor is entered
+exactly once; and no field interceptor or resolver runs at any other path. -/
+theorem each_field_hook_once (exts : List Ext) (roots : List Nat) (hnd : (exts.map (·.id)).Nodup) (p : Path) :
+    let body := Spec.respLog exts (Spec.rootsLog exts 0 roots)
+    (p ∈ fieldPaths 0 roots →
+      body.count (.res p) = 1 ∧
+      ∀ x ∈ exts, x.field = true → body.count (.enter .field x.id p) = 1) ∧
+    (p ∈ rootPaths 0 roots →
+      ∀ x ∈ exts, x.root = true → body.count (.enter .root x.id p) = 1) ∧
+    (p ∉ fieldPaths 0 roots →
+      body.count (.res p) = 0 ∧ ∀ i, body.count (.enter .field i p) = 0) := by
+  intro body
+  refine ⟨?_, ?_, ?_⟩
+  · intro hp
+    have hc := count_path_eq_one (fieldPaths_nodup roots 0) hp
+    refine ⟨?_, ?_⟩
+    · simp only [body]
+      rw [count_respLog_inner _ _ _ (by intro j; simp) (by intro j; simp), count_rootsLog_res, hc]
+    · intro x hx hf
+      have hk : x.has .field = true := hf
+      simp only [body]
+      rw [count_respLog_inner _ _ _ (by intro j; simp) (by intro j; simp), count_rootsLog_enter_field,
+        hc, hooks_eq_one hnd hx hk]
+  · intro hp x hx hf
+    have hk : x.has .root = true := hf
+    have hc := count_path_eq_one (rootPaths_nodup roots 0) hp
+    simp only [body]
+    rw [count_respLog_inner _ _ _ (by intro j; simp) (by intro j; simp), count_rootsLog_enter_root,
+      hc, hooks_eq_one hnd hx hk]
+  · intro hp
+    have hc : (fieldPaths 0 roots).count p = 0 := List.count_eq_zero.2 hp
+    refine ⟨?_, ?_⟩
+    · simp only [body]
+      rw [count_respLog_inner _ _ _ (by intro j; simp) (by intro j; simp), count_rootsLog_res, hc]
+    · intro i
+      simp only [body]
+      rw [count_respLog_inner _ _ _ (by intro j; simp) (by intro j; simp), count_rootsLog_enter_field, hc]
+      simp
+
+example : [1, 0] ∈ fieldPaths 0 [0, 2] ∧ [1] ∈ rootPaths 0 [0, 2] ∧ [2] ∉ fieldPaths 0 [0, 2] := by decide
+
+/-! ## 6. Concurrent requests and the global rule list -/
+
+open Race in
+/-- **Before the fix** (`validatorRulesMu` absent: the program of `Steps.swapAtomic = false`): two
+concurrent first requests with `disableSuggestion`; thread 1 evaluates `range specifiedRules` of
+`RemoveRule`, thread 0 runs `RemoveRule` and `ReplaceRule` completely, thread 1's stale write lands,
+and thread 0's `Validate` reads a list with **neither** field-existence rule. Observed on the real code
+(pre-fix tree) by `h_c03 -mode window`: `{ nope_unknown_field }` passed validation and was cached. -/
+theorem suggestion_race_witness :
+    ((exec (start false initRules 2) [1, 0, 0, 0, 0, 0, 1, 0]).threads[0]?).bind (·.seen) = some [.other] ∧
+    hasFieldRule [.other] = false := by decide
+
+/-- …and with such a list a document with an unknown field validates and is stored in the cache -/
+theorem race_poisons_cache_witness :
+    let bad : Doc := { id := 7, ops := [⟨"", false, [0]⟩], nField := 1, nOther := 0, sugg := false }
+    bad.valid = false ∧ (validateAndStore (mapCache : CacheImpl (MapState Doc Nat) Doc Nat) [.other] mapEmpty 7 bad).1 = .doc bad := by
+  decide
+
+/-- the source has the rule swap inside the writer lock and `Validate` inside the reader lock
+(regenerated on every run) -/
+theorem gen_swap_is_atomic : Steps.swapAtomic Gen.PipelineSteps.parseQuerySteps = true := by decide
+
+open Race in
+/-- **With the lock regions the source has today**: for every number of concurrent requests, every
+initial rule list and **every schedule**, every `Validate` runs with a field-existence rule in the
+list. (Interleaving semantics; data-race freedom itself is observed with `-race`, not proved.) -/
+theorem concurrent_validate_sees_field_rule (g : Rules) (n : Nat) (sched : List Nat) :
+    ∀ t ∈ (exec (start (Steps.swapAtomic Gen.PipelineSteps.parseQuerySteps) g n) sched).threads,
+      ∀ l, t.seen = some l → hasFieldRule l = true := by
+  rw [gen_swap_is_atomic]
+  exact locked_safe g n sched
+
+open Race in
+/-- non-vacuity: three threads, all of which reach `Validate` -/
+example : ((exec (start true initRules 3) [2, 0, 0, 1, 2, 1]).threads.map (·.seen)) =
+    [some [.other, .ws], some [.other, .ws], some [.other, .ws]] := by decide
 
 end GqlgenVerif.Props.C03
